@@ -130,6 +130,27 @@ class StmtMixin(CallMixin):
                 return self.assign(ast.Attribute(value=ast.Name(id=oname, ctx=ast.Load()), attr=fname, ctx=ast.Store()), new, s)
 
             return self.lift_bind(self.ev(v.args[0], st), kr)
+        # obj.field.pop() (last element dropped; the value is not used) on an object updated in place
+        if (isinstance(v, ast.Call) and isinstance(v.func, ast.Attribute) and v.func.attr == "pop" and not v.args
+                and isinstance(v.func.value, ast.Attribute) and isinstance(v.func.value.value, ast.Name)
+                and isinstance(st.env.get(v.func.value.value.id), Rec)):
+            oname, fname = v.func.value.value.id, v.func.value.attr
+            cur = st.env[oname].fields.get(fname)
+            if cur is None:
+                raise Unsupported(f"pop from unset field {fname}")
+            if isinstance(cur, T) and cur.kind == "V":
+                self.oblige(st, "safety:pop", self.is_kind(cur, ["VList"]))
+            seq = self.seq_term(cur)
+            n = z3.Length(seq)
+            tgt = ast.Attribute(value=ast.Name(id=oname, ctx=ast.Load()), attr=fname, ctx=ast.Store())
+            def popped(a):
+                # the shorter list, characterised position by position (friendlier to instantiation than seq.extract)
+                r = z3.Const(fresh_name("popd"), self.U.SeqV)
+                j = z3.Int("pj!")
+                a2 = a.fork(z3.Length(r) == n - 1, self.forall([j], z3.Implies(z3.And(j >= 0, j < n - 1), r[j] == seq[j]), [r[j]]))
+                return self.assign(tgt, T("list", r), a2)
+
+            return self.split(st, n > 0, popped, lambda b: self.lift(self.raise_(b, "IndexError")))
         if isinstance(v, ast.Call) and isinstance(v.func, ast.Attribute) and v.func.attr == "shuffle" and isinstance(v.func.value, ast.Name) and v.func.value.id == "random":
             if len(v.args) == 1 and isinstance(v.args[0], ast.Name):
                 return self.shuffle_local(v.args[0].id, st)
@@ -264,6 +285,31 @@ class StmtMixin(CallMixin):
                 return self.lift_bind(self.binop(node.op, vs[0], vs[1], s, node), lambda v, s2: self.assign(tgt, v, s2))
 
             return self.lift_bind(self.ev_seq([load, node.value], st, lambda vs, s: [(OK, vs, s)]), kf)
+        if (isinstance(tgt, ast.Subscript) and isinstance(tgt.value, ast.Attribute) and isinstance(tgt.value.value, ast.Name)
+                and isinstance(st.env.get(tgt.value.value.id), Rec) and not isinstance(tgt.slice, ast.Slice)):
+            # obj.field[i] op= e on an object updated in place: the list with position i replaced
+            oname, fname = tgt.value.value.id, tgt.value.attr
+            load = ast.Subscript(value=ast.Attribute(value=ast.Name(id=oname, ctx=ast.Load()), attr=fname, ctx=ast.Load()), slice=tgt.slice, ctx=ast.Load())
+            ftgt = ast.Attribute(value=ast.Name(id=oname, ctx=ast.Load()), attr=fname, ctx=ast.Store())
+
+            def ks(vs, s):
+                old_elem, idx, rhs = vs
+
+                def put(newv, s2):
+                    cur = s2.env[oname].fields[fname]
+                    seq = self.seq_term(cur)
+                    n = z3.Length(seq)
+                    i0 = self.int_term(idx)
+                    i = z3.If(i0 < 0, i0 + n, i0)  # in range: the load above did not raise
+                    upd = z3.Const(fresh_name("updl"), self.U.SeqV)
+                    j = z3.Int("uj!")
+                    s3 = s2.fork(z3.Length(upd) == n, upd[i] == self.box(newv),
+                                 self.forall([j], z3.Implies(z3.And(j >= 0, j < n, j != i), upd[j] == seq[j]), [upd[j]]))
+                    return self.assign(ftgt, T("list", upd), s3)
+
+                return self.lift_bind(self.binop(node.op, old_elem, rhs, s, node), put)
+
+            return self.lift_bind(self.ev_seq([load, tgt.slice, node.value], st, lambda vs, s: [(OK, vs, s)]), ks)
         if not isinstance(node.target, ast.Name):
             raise Unsupported("augmented assignment to non-name")
         load = ast.Name(id=node.target.id, ctx=ast.Load())
@@ -426,6 +472,21 @@ class StmtMixin(CallMixin):
         c = self.cur_contract
         return list(c.loops.get(k, [])) if c else []
 
+    def havoc_names(self, sh, mod, body):
+        """loop havoc: assigned names become unknown values; an object updated in place (a record) that the body
+        mentions at all becomes an unknown instance of its class (its fields may have been changed through method calls)"""
+        mentioned = {n.id for stmt in body for n in ast.walk(stmt) if isinstance(n, ast.Name)}
+        facts = []
+        for v in list(sh.env):
+            cur = sh.env[v]
+            if isinstance(cur, Rec) and (v in mod or v in mentioned):
+                m = z3.Const(fresh_name("hv_" + v), self.V)
+                facts.append(self.isinstance_term(T("V", m), Cls(cur.cls)))
+                sh.env[v] = self.rec_of(cur.cls, m)
+            elif v in mod and not isinstance(cur, (Cls, Fn, Builtin, Mod)):
+                sh.env[v] = T("V", z3.Const(fresh_name("hv_" + v), self.V))
+        return sh.fork(*facts) if facts else sh
+
     def st_For(self, node, st):
         k = self.loop_ord[id(node)]
         invs = self.invariants(k)
@@ -443,10 +504,7 @@ class StmtMixin(CallMixin):
             for nn in ast.walk(node.target):
                 if isinstance(nn, ast.Name):
                     mod.add(nn.id)
-            sh = s.fork()
-            for v in mod:
-                if v in sh.env and not isinstance(sh.env[v], (Cls, Fn, Builtin, Mod)):
-                    sh.env[v] = T("V", z3.Const(fresh_name("hv_" + v), self.V))
+            sh = self.havoc_names(s.fork(), mod, node.body)
             if sh.out is not None:
                 sh.out = z3.Const(fresh_name("hv_out"), self.U.SeqV)
             i = z3.Int(fresh_name(f"i{k}_"))
@@ -502,10 +560,7 @@ class StmtMixin(CallMixin):
         for idx, cl in enumerate(invs):
             self.oblige(st, f"inv-init#{k}.{idx}", self.truthy(self.ev1(self.cur_contract.parsed(cl), s0)), cl)
         mod = assigned_names(node.body)
-        sh = st.fork()
-        for v in mod:
-            if v in sh.env and not isinstance(sh.env[v], (Cls, Fn, Builtin, Mod)):
-                sh.env[v] = T("V", z3.Const(fresh_name("hv_" + v), self.V))
+        sh = self.havoc_names(st.fork(), mod, node.body + [ast.Expr(value=node.test)])
         if sh.out is not None:
             sh.out = z3.Const(fresh_name("hv_out"), self.U.SeqV)
         si = self.inv_state(sh, k, None)
